@@ -8,9 +8,11 @@ optimistic transactions (any schedule of start/commit events), and about the
 badger driver's expiring nonce entries.
 -/
 import Vipnode.Lemmas.Store
+import Vipnode.Model.NonceTtl
 namespace Vipnode.C05
 open Vipnode Vipnode.AList
 open Vipnode.Store (checkAndSaveNonce)
+open Vipnode.NonceTtl
 
 /-- a submission: identity, nonce, clock reading of the store -/
 structure Sub where
@@ -244,48 +246,25 @@ without bound.  With the entry kept until the nonce itself has turned stale (`no
 it is unobservable: the expiring table gives the same verdicts as a table that never forgets, for every
 history with a non-decreasing clock. -/
 
-/-- badger table: identity ↦ (nonce, expiry instant) -/
-abbrev ETable := AList (Int × Int)
-
-def eget (t : ETable) (id : String) (now : Int) : Option Int :=
-  match t.get id with
-  | some (v, exp) => if now < exp then some v else none
-  | none => none
-
-/-- `CheckAndSaveNonce` of the badger driver; `exp` is the instant at which the saved entry expires
-(the code asks for `nonce + window + 1 s`, badger rounds down to whole seconds) -/
-def echeck (t : ETable) (id : String) (n now exp : Int) : Option ETable :=
-  if n ≤ now - nonceWindow then none
-  else match eget t id now with
-    | some v => if n ≤ v then none else some (t.set id (n, exp))
-    | none => some (t.set id (n, exp))
-
-/-- the never-forgetting table (memory driver), without the default-0 entry -/
-def mcheck (t : AList Int) (id : String) (n now : Int) : Option (AList Int) :=
-  if n ≤ now - nonceWindow then none
-  else match t.get id with
-    | some v => if n ≤ v then none else some (t.set id n)
-    | none => some (t.set id n)
-
 /-- the expiring table holds the same nonces as the never-forgetting one, each kept at least until
 the nonce itself is stale -/
-def Sim (et : ETable) (mt : AList Int) : Prop :=
+def Sim (w : Int) (et : ETable) (mt : AList Int) : Prop :=
   ∀ id, match mt.get id with
     | none => et.get id = none
-    | some v => ∃ e, et.get id = some (v, e) ∧ v + nonceWindow ≤ e
+    | some v => ∃ e, et.get id = some (v, e) ∧ v + w ≤ e
 
-theorem ttl_safe_step (et : ETable) (mt : AList Int) (id : String) (n now exp : Int) (h : Sim et mt)
-    (hexp : n + nonceWindow ≤ exp) :
-    match echeck et id n now exp, mcheck mt id n now with
-    | some et', some mt' => Sim et' mt'
+theorem ttl_safe_step (w : Int) (et : ETable) (mt : AList Int) (id : String) (n now exp : Int) (h : Sim w et mt)
+    (hexp : n + w ≤ exp) :
+    match echeck w et id n now exp, mcheck w mt id n now with
+    | some et', some mt' => Sim w et' mt'
     | none, none => True
     | _, _ => False := by
   unfold echeck mcheck
-  by_cases hs : n ≤ now - nonceWindow
+  by_cases hs : n ≤ now - w
   · simp [hs]
   · simp only [hs, if_false]
     have hid := h id
-    have hset : Sim (et.set id (n, exp)) (mt.set id n) := by
+    have hset : Sim w (et.set id (n, exp)) (mt.set id n) := by
       intro id'
       by_cases e : id = id'
       · subst e; simp only [get_set_eq]; exact ⟨exp, rfl, hexp⟩
@@ -309,56 +288,56 @@ theorem ttl_safe_step (et : ETable) (mt : AList Int) (id : String) (n now exp : 
         have hnv : ¬ n ≤ v := by omega
         simp only [hnv, if_false]; exact hset
 
-/-- a submission together with the expiry instant badger gives the saved entry -/
-structure ESub where
-  id : String
-  nonce : Int
-  now : Int
-  exp : Int
-
-/-- run both tables over the same history -/
-def erun : ETable → List ESub → ETable × List Bool
-  | t, [] => (t, [])
-  | t, x :: xs => match echeck t x.id x.nonce x.now x.exp with
-    | some t' => let (tf, vs) := erun t' xs; (tf, true :: vs)
-    | none => let (tf, vs) := erun t xs; (tf, false :: vs)
-
-def mrun : AList Int → List ESub → AList Int × List Bool
-  | t, [] => (t, [])
-  | t, x :: xs => match mcheck t x.id x.nonce x.now with
-    | some t' => let (tf, vs) := mrun t' xs; (tf, true :: vs)
-    | none => let (tf, vs) := mrun t xs; (tf, false :: vs)
-
 /-- **TTL is unobservable**: for every history (any clock readings) in which every saved entry is kept at
 least until its nonce is stale, the expiring table returns exactly the verdicts of the table that never
 forgets — an expired entry never re-admits a nonce -/
-theorem ttl_safe (et : ETable) (mt : AList Int) (xs : List ESub) (h : Sim et mt)
-    (hexp : ∀ x ∈ xs, x.nonce + nonceWindow ≤ x.exp) :
-    (erun et xs).2 = (mrun mt xs).2 := by
+theorem ttl_safe (w : Int) (et : ETable) (mt : AList Int) (xs : List ESub) (h : Sim w et mt)
+    (hexp : ∀ x ∈ xs, x.nonce + w ≤ x.exp) :
+    (erun w et xs).2 = (mrun w mt xs).2 := by
   induction xs generalizing et mt with
   | nil => rfl
   | cons x xs ih =>
-    have hstep := ttl_safe_step et mt x.id x.nonce x.now x.exp h (hexp x List.mem_cons_self)
-    have hexp' : ∀ y ∈ xs, y.nonce + nonceWindow ≤ y.exp := fun y hy => hexp y (List.mem_cons_of_mem _ hy)
+    have hstep := ttl_safe_step w et mt x.id x.nonce x.now x.exp h (hexp x List.mem_cons_self)
+    have hexp' : ∀ y ∈ xs, y.nonce + w ≤ y.exp := fun y hy => hexp y (List.mem_cons_of_mem _ hy)
     unfold erun mrun
-    cases he : echeck et x.id x.nonce x.now x.exp with
+    cases he : echeck w et x.id x.nonce x.now x.exp with
     | none =>
-      cases hm : mcheck mt x.id x.nonce x.now with
+      cases hm : mcheck w mt x.id x.nonce x.now with
       | none => simp only; rw [ih et mt h hexp']
       | some mt' => simp [he, hm] at hstep
     | some et' =>
-      cases hm : mcheck mt x.id x.nonce x.now with
+      cases hm : mcheck w mt x.id x.nonce x.now with
       | none => simp [he, hm] at hstep
       | some mt' =>
         simp only [he, hm] at hstep
         simp only; rw [ih et' mt' hstep hexp']
 
-theorem sim_empty : Sim [] [] := by intro id; simp
+/-- the never-forgetting table of this section is the store model's nonce table (both drivers' documented
+contract) for every positive nonce: same verdict, same table afterwards -/
+theorem mcheck_is_store (s : Store) (id : String) (n now : Int) (hn : 0 < n) :
+    match mcheck nonceWindow s.nonces id n now, s.checkAndSaveNonce id n now with
+    | some t', .ok s' => s'.nonces = t'
+    | none, .error _ => True
+    | _, _ => False := by
+  unfold mcheck Store.checkAndSaveNonce
+  by_cases hs : n ≤ now - nonceWindow
+  · simp [hs]
+  · simp only [hs, if_false]
+    cases hg : s.nonces.get id with
+    | none =>
+      have : ¬ n ≤ 0 := by omega
+      simp [this]
+    | some v =>
+      by_cases hv : n ≤ v
+      · simp [hv]
+      · simp [hv]
+
+theorem sim_empty (w : Int) : Sim w [] [] := by intro id; simp
 
 /-- the pre-repair behaviour (entry expiring `window` after it was *saved*): a future-dated nonce is
 accepted a second time once the entry has lapsed — the witness that motivated the repair (DESIGN.md §9 F16) -/
 def echeckOld (t : ETable) (id : String) (n now : Int) : Option ETable :=
-  echeck t id n now (now + nonceWindow)
+  echeck nonceWindow t id n now (now + nonceWindow)
 
 theorem old_ttl_counterexample :
     let w := nonceWindow
